@@ -2,6 +2,7 @@
 # Copyright 2015 Hewlett-Packard Development Company, L.P.
 #
 # SPDX-License-Identifier: Apache-2.0
+import codecs
 import collections
 
 from bandit.core import constants
@@ -70,6 +71,9 @@ class Metrics:
 
         def proc(line):
             tmp = line.strip()
+            if tmp.startswith(codecs.BOM_UTF8):
+                # a byte order mark in front of a comment or blank line
+                tmp = tmp[len(codecs.BOM_UTF8) :].strip()
             return bool(tmp and not tmp.startswith(b"#"))
 
         self.current["loc"] += sum(proc(line) for line in lines)
